@@ -3,6 +3,7 @@ package quic
 import (
 	"context"
 	"errors"
+	"fmt"
 	"net"
 
 	"github.com/refraction-networking/uquic/internal/protocol"
@@ -77,6 +78,13 @@ func (t *UTransport) dial(ctx context.Context, addr net.Addr, host string, tlsCo
 	if t.QUICSpec != nil {
 		t.QUICSpec.UpdateConfig(conf)
 		initialPN = t.QUICSpec.InitialPacketSpec.initialPN()
+		// A packet number is sent truncated to at most 4 bytes and recovered relative to
+		// the largest one the peer has seen (RFC 9000, Appendix A.3). For the very first
+		// packet that is nothing, so a first packet number of 2^32 or more decodes to a
+		// different value at every server and the Initial can never be decrypted.
+		if initialPN >= 1<<32 {
+			return nil, fmt.Errorf("uquic: InitPacketNumber %d cannot be the first packet number of a connection: it does not fit the 4-byte packet number encoding", initialPN)
+		}
 	}
 
 	tlsConf = tlsConf.Clone()
